@@ -291,7 +291,8 @@ theorem offered_iff_agree (r : Sub.Req) (sub : Sub.Subscriber) (hs : sub.regs = 
 def ltsMode : Sub.Mode → SubLTS.Mode
   | .once => .once
   | .poll => .poll
-  | _ => .stream
+  | .stream => .stream
+  | .other => .other
 
 /-- "the registered paths are compatible with the key": `Sub.regQueries` against `target :: key` -/
 def wantsOf (r : Sub.Req) (k : String × Path) : Bool :=
@@ -322,7 +323,7 @@ def ltsReq (r : Sub.Req) (acl : Sub.Acl) : SubLTS.Req (String × Path) String (S
     aclOk := match acl with
       | .fails => false
       | _ => true
-    valid := r.hasSubscribe && !r.prefixNil && r.target != "" && r.mode != .other }
+    valid := r.hasSubscribe && !r.prefixNil && r.target != "" }
 
 /-- the Subscribe LTS over the keys of the cache model: a key is `(target, index path)`, a region
 `(target, delete path)` covering the keys of that target its path selects -/
@@ -420,13 +421,23 @@ theorem subSys_swap (reqs : Nat → Sub.Req × Sub.Acl) : (subSys reqs).swap = f
 /-- C04 `converges` for actual requests, with no assumption on the path predicates left: in every
 reachable quiescent configuration of the Subscribe LTS over the cache model's keys, what a
 registered STREAM subscriber was sent replays to the cache's value on every allowed key its walk
-matches. -/
+matches — provided no quiet write (event-driven suppression) happened; `converges_concrete_mod` is the
+general form, modulo the logged quiet writes. -/
 theorem converges_concrete {V : Type} [Inhabited V] (reqs : Nat → Sub.Req × Sub.Acl)
     {c : SubLTS.Cfg (String × Path) V String (String × Path)} (h : SubLTS.Reach (subSys reqs) c)
     (s : Nat) (hq : C04.Quiescent c s) (hr : (c.subs s).registered = true)
     (huo : (reqs s).1.updatesOnly = false) (k : String × Path)
-    (hw : walksOf (reqs s).1 k = true) (ha : (reqs s).2.check k.1 = true) :
+    (hw : walksOf (reqs s).1 k = true) (ha : (reqs s).2.check k.1 = true) (hnq : c.sh.qlog = []) :
     SubLTS.view (subSys reqs) k (c.subs s).sent = c.sh.cache k :=
+  C04.converges_exact (subSys_swap reqs) (subSys_wf reqs) h s hq hr huo k hw ha hnq
+
+/-- C04 `converges` for actual requests, in general: equal up to the logged quiet writes -/
+theorem converges_concrete_mod {V : Type} [Inhabited V] (reqs : Nat → Sub.Req × Sub.Acl)
+    {c : SubLTS.Cfg (String × Path) V String (String × Path)} (h : SubLTS.Reach (subSys reqs) c)
+    (s : Nat) (hq : C04.Quiescent c s) (hr : (c.subs s).registered = true)
+    (huo : (reqs s).1.updatesOnly = false) (k : String × Path)
+    (hw : walksOf (reqs s).1 k = true) (ha : (reqs s).2.check k.1 = true) :
+    SubLTS.ORel (SubLTS.QChain c.sh.qlog) (SubLTS.view (subSys reqs) k (c.subs s).sent) (c.sh.cache k) :=
   C04.converges (subSys_swap reqs) (subSys_wf reqs) h s hq hr huo k hw ha
 
 /-- C04 `no_missed_change` for actual requests -/
@@ -435,7 +446,7 @@ theorem no_missed_change_concrete {V : Type} [Inhabited V] (reqs : Nat → Sub.R
     (s : Nat) (k : String × Path) (hr : (c.subs s).registered = true)
     (huo : (reqs s).1.updatesOnly = false) (hw : wantsOf (reqs s).1 k = true)
     (ha : (reqs s).2.check k.1 = true) (hf : c.sh.inflight (subSys reqs) k = false) :
-    SubLTS.expect (subSys reqs) c.sh (c.subs s) k = c.sh.cache k ∨
+    SubLTS.ORel (SubLTS.QChain c.sh.qlog) (SubLTS.expect (subSys reqs) c.sh (c.subs s) k) (c.sh.cache k) ∨
     (c.sh.present k = true ∧ walksOf (reqs s).1 k = true ∧ SubLTS.walkPending (c.subs s) k) ∨
     (walksOf (reqs s).1 k = false ∧ SubLTS.expect (subSys reqs) c.sh (c.subs s) k = none) :=
   C04.no_missed_change (subSys_swap reqs) (subSys_wf reqs) h s k hr huo hw ha hf
